@@ -3,6 +3,7 @@
 package nomsim
 
 import (
+	"os"
 	"fmt"
 	"math/big"
 	"time"
@@ -128,6 +129,17 @@ func (w *World) StepSlot() []*simnode.Node {
 		if ok {
 			h1 := n.Height()
 			w.R.Logf("slot %d node %s produced: height %d -> %d (%s)", s, n.Name, h0, h1, n.Frontier().Hash.String()[:8])
+			if os.Getenv("VERIF_DUMP_LOG") != "" { // development aid (not part of the digest otherwise)
+				for h := h0 + 1; h <= h1; h++ {
+					if d := n.Detailed(h); d != nil {
+						c := ""
+						for _, b := range d.AccountBlocks {
+							c += fmt.Sprintf(" %s/%d:%s", b.Address.String()[:8], b.Height, b.Hash.String()[:6])
+						}
+						w.R.Logf("  momentum %d ts %d content:%s", h, d.Momentum.TimestampUnix, c)
+					}
+				}
+			}
 			produced = append(produced, n)
 		}
 	}
